@@ -26,6 +26,22 @@ if os.environ.get("VERIF_CHILD_LOG"):
 REPO = os.environ.get("VERIF_REPO", "/repo")
 sys.path.insert(0, REPO)
 
+if os.environ.get("VERIF_IMPORT_CAPTURE"):
+    # first import of the library happens while the host captures the standard streams; the capture ends afterwards
+    import contextlib
+    import io
+    _cap_out, _cap_err = io.StringIO(), io.StringIO()
+    with contextlib.redirect_stdout(_cap_out), contextlib.redirect_stderr(_cap_err):
+        import conda_content_trust.authentication  # noqa: F401
+        import conda_content_trust.cli  # noqa: F401
+        import conda_content_trust.common  # noqa: F401
+        import conda_content_trust.metadata_construction  # noqa: F401
+        import conda_content_trust.root_signing  # noqa: F401
+        import conda_content_trust.signing  # noqa: F401
+    if os.environ["VERIF_IMPORT_CAPTURE"] == "closed":
+        _cap_out.close()
+        _cap_err.close()
+
 
 def permuted(v, rng):
     """Same JSON value, rebuilt with another insertion history."""
@@ -71,6 +87,12 @@ def corpus(seed, n):
         else:
             v = {"signatures": {}, "signed": gen.gen_payload(rng, True)}
         out.append(v)
+    # the same container object referenced from several places (no cycle): as a JSON value, equal members
+    for _ in range(3):
+        x = gen.gen_json(rng, 2, None, True)
+        if not isinstance(x, (dict, list)):
+            x = [x, {"k": x}]
+        out.append({"a": x, "b": x, "c": [x, x, {"d": x}]})
     # repodata-sized values: canonical text on both sides of 64 KiB / 128 KiB / 1 MiB boundaries
     for target in (rng.choice([66000, 70000, 131500]), rng.choice([200000, 1100000])):
         pk = {}
